@@ -86,6 +86,13 @@ theorem verdict_iff_all_memo_std (s : SchemaD) (fx : Fixes) (hfx : HeadVars fx) 
     (hd : DocOkM s d) : (∀ r ∈ Rule.all, SilentM s fx r d) ↔ (∀ r ∈ Rule.all, SpecStd r s fx d) :=
   (verdict_iff_all_memo s fx hfx hs d hd).trans (specStd_all_iff s fx d).symm
 
+/-- **the memo is verdict-neutral for the whole chain**: on documents covered by both headline theorems (`DocOk`: within the
+    rank bound of the un-memoised search) the chain /repo runs and the chain of the earlier theorems accept the same
+    documents - cyclic fragment graphs and duplicate fragment names included (there both chains reject) -/
+theorem verdict_memo_neutral (s : SchemaD) (fx : Fixes) (hfx : HeadVars fx) (hs : SchemaOutputs s) (d : Doc)
+    (hd : DocOk s d) : (∀ r ∈ Rule.all, SilentM s fx r d) ↔ (∀ r ∈ Rule.all, Silent s fx r d) :=
+  (verdict_iff_all_memo s fx hfx hs d (docOkM_of_docOk hd)).trans (verdict_iff_all s fx hfx hs d hd).symm
+
 /-- **attribution** for the chain with the memoised overlap rule: if the clause of exactly one rule fails, that rule
     reports and no other does (same visible exception as `attribution_all`) -/
 theorem attribution_all_memo (s : SchemaD) (fx : Fixes) (hfx : HeadVars fx) (hs : SchemaOutputs s) (d : Doc)
